@@ -103,12 +103,12 @@ type violationLine struct {
 
 // workerSummary is what a worker prints when it has finished its share.
 type workerSummary struct {
-	Evaluations int64            `json:"evaluations"`
-	Nontrivial  int64            `json:"nontrivial"`
-	Violations  int64            `json:"violations"`
-	Discards    map[string]int64 `json:"discards,omitempty"`
-	Counters    map[string]int64 `json:"counters,omitempty"`
-	Ticks       uint64           `json:"ticks"`
+	Evaluations int64             `json:"evaluations"`
+	Nontrivial  int64             `json:"nontrivial"`
+	Violations  int64             `json:"violations"`
+	Discards    map[string]int64  `json:"discards,omitempty"`
+	Counters    map[string]int64  `json:"counters,omitempty"`
+	Ticks       uint64            `json:"ticks"`
 	Samples     []json.RawMessage `json:"samples,omitempty"`
 }
 
@@ -119,10 +119,10 @@ type WorkerOpts struct {
 	Seed     uint64
 	From, To int
 	Step     int
-	Every    int    // announce "RUN i" before every Every-th run of the share
-	OutDir   string // where the bitmaps go ("" = do not write)
-	Tag      string // file name tag for the bitmaps
-	Samples  int    // how many sample cases to print
+	Every    int          // announce "RUN i" before every Every-th run of the share
+	OutDir   string       // where the bitmaps go ("" = do not write)
+	Tag      string       // file name tag for the bitmaps
+	Samples  int          // how many sample cases to print
 	Skip     map[int]bool // runs not to execute (confirmed process-killing runs)
 	// Trace prints the complete outcome of every run ("T i json"), for the
 	// determinism self-test.
